@@ -526,7 +526,7 @@ theorem firstErr_some_split (f : Hdr → Option Err) (l : List Hdr) (e : Err) (h
 
 /-! ### one header, the body -/
 
-theorem checkHeader_iff (canon : String → String) (w : Bool) (hdrs : List (String × String)) (h : Hdr)
+theorem checkHeader_iff (canon : String → String) (w : Bool) (hdrs : List (String × Option String)) (h : Hdr)
     (h1 : hdrDecodedNil canon hdrs h = false) (h2 : hdrArrayNoItems canon hdrs h = false) :
     checkHeader canon w hdrs h = none ↔ HeaderOK canon w hdrs h := by
   unfold checkHeader HeaderOK
@@ -542,7 +542,7 @@ theorem checkHeader_iff (canon : String → String) (w : Bool) (hdrs : List (Str
     | some s =>
       simp only [hl, hs] at h1 h2
       simp only [Option.some.injEq, forall_eq']
-      cases hd : decodeHeader s h.explode raw h.emptyNameDec with
+      cases hd : decodeHdrVal s h.explode raw h.emptyNameDec with
       | err => simp [specValue]
       | panic => simp [hd] at h2
       | nil => simp [hd] at h1
@@ -590,7 +590,7 @@ theorem checkBody_iff (reg : List (String × String)) (o : Opts) (i : Input) (r 
             · simp [← e3, hb]
 
 
-theorem headerOKB_iff (canon : String → String) (w : Bool) (hdrs : List (String × String)) (h : Hdr) :
+theorem headerOKB_iff (canon : String → String) (w : Bool) (hdrs : List (String × Option String)) (h : Hdr) :
     headerOKB canon w hdrs h = true ↔ HeaderOK canon w hdrs h := by
   unfold headerOKB HeaderOK
   cases lookup (canon h.name) hdrs with
@@ -600,7 +600,7 @@ theorem headerOKB_iff (canon : String → String) (w : Bool) (hdrs : List (Strin
     | none => simp
     | some s =>
       simp only [Option.some.injEq, forall_eq']
-      cases hv : specValue (decodeHeader s h.explode raw h.emptyNameDec) raw with
+      cases hv : specValue (decodeHdrVal s h.explode raw h.emptyNameDec) raw with
       | none => simp
       | some v => simp [satRepB_iff]
 
